@@ -97,7 +97,8 @@ out.append("Round h: 20 fresh sub-agents, one per property, given only the prope
            "on the unchanged tree, then the repository was repaired; *known* = genuine, recorded in known_findings.json; *reading* = depends on a "
            "reading of the statement that the check does not adopt (reason given); *outside* = outside the quantifier (reason given). "
            "Where a genuine finding had been hidden by a carve-out of my own generator or oracle, the disposition says so.\n")
-for rnd, sub in (("h", "hunt"), ("i (second hunt, on the tree repaired after round h; hunters were told what had been reported before)", "hunt2")):
+for rnd, sub in (("h", "hunt"), ("i (second hunt, on the tree repaired after round h; hunters were told what had been reported before)", "hunt2"),
+                 ("j (third hunt, ten properties with the richest history, on the tree repaired after round i; hunters were also pointed at the fix: commits)", "hunt3")):
     hb = os.path.join(HERE, sub)
     if not os.path.isdir(hb):
         continue
